@@ -1,1 +1,111 @@
-import RosedVerif.Model.Ops
+/-
+C17 — Unset options equal their defaults; XOpts equals WithOptions(o).X.
+-/
+import RosedVerif.Model.InstAFacts
+import RosedVerif.Model.OptionsLemmas
+import RosedVerif.Gen.Facts
+namespace RosedVerif.Props
+open RosedVerif
+
+/-- WithDefaults is idempotent whenever the completed table character set has three clusters —
+the decidable side condition `CharsetOK` (it fails only when a Prepend-class character swallows the
+default character appended after it: known finding D10) -/
+def CharsetOK (o : Options Int) : Prop := gLen cxA (o.withDefaults cxA).charset = gLen cxA cxA.dCharset
+
+theorem C17_idempotent (o : Options Int) (h : CharsetOK o) :
+    (o.withDefaults cxA).withDefaults cxA = o.withDefaults cxA := withDefaults_idem' cxA o h
+
+theorem C17_three_clusters (o : Options Int) (h : CharsetOK o) : gLen cxA (o.withDefaults cxA).charset = 3 := by
+  rw [h]; decide +kernel
+
+/-- at cluster level (one token per cluster) no side condition is needed -/
+theorem C17_idempotent_clusters {α : Type} (cx : Ctx α) (htriv : ∀ s, cx.ends s = List.range' 1 s.length)
+    (h3 : cx.dCharset.length = 3) (o : Options α) :
+    (o.withDefaults cx).withDefaults cx = o.withDefaults cx ∧ ((o.withDefaults cx).charset).length = 3 :=
+  withDefaults_idem_triv cx htriv h3 o
+
+/-- unset string fields behave as their documented defaults -/
+theorem C17_fields (o : Options Int) :
+    (o.withDefaults cxA).lineSep = (if o.lineSep.isEmpty then cxA.dLineSep else o.lineSep) ∧
+    (o.withDefaults cxA).indentStr = (if o.indentStr.isEmpty then cxA.dIndent else o.indentStr) ∧
+    (o.withDefaults cxA).paraSep = (if o.paraSep.isEmpty then cxA.dParaSep else o.paraSep) ∧
+    (o.withDefaults cxA).noTrailing = o.noTrailing ∧
+    (o.withDefaults cxA).preservePara = o.preservePara ∧
+    (o.withDefaults cxA).justifyLast = o.justifyLast ∧
+    (o.withDefaults cxA).borders = o.borders ∧
+    (o.withDefaults cxA).headers = o.headers := withDefaults_fields cxA o
+
+/-- every XOpts depends on its Options only through their defaulted form: a zero Options value, its
+WithDefaults() form and any mixture of explicitly default fields give identical results -/
+theorem C17_wrap (ed : Editor Int) (w : Int) (o : Options Int) (h : CharsetOK o) :
+    ed.wrapOpts cxA w o = ed.wrapOpts cxA w (o.withDefaults cxA) := wrapOpts_defaults cxA ed w o (C17_idempotent o h)
+theorem C17_justify (ed : Editor Int) (w : Int) (o : Options Int) (h : CharsetOK o) :
+    ed.justifyOpts cxA w o = ed.justifyOpts cxA w (o.withDefaults cxA) := justifyOpts_defaults cxA ed w o (C17_idempotent o h)
+theorem C17_align (ed : Editor Int) (a w : Int) (o : Options Int) (h : CharsetOK o) :
+    ed.alignOpts cxA a w o = ed.alignOpts cxA a w (o.withDefaults cxA) := alignOpts_defaults cxA ed a w o (C17_idempotent o h)
+theorem C17_collapse (ed : Editor Int) (o : Options Int) (h : CharsetOK o) :
+    ed.collapseSpaceOpts cxA o = ed.collapseSpaceOpts cxA (o.withDefaults cxA) :=
+  collapseSpaceOpts_defaults cxA ed o (C17_idempotent o h)
+theorem C17_indent (ed : Editor Int) (l : Int) (o : Options Int) (h : CharsetOK o) :
+    ed.indentOpts cxA l o = ed.indentOpts cxA l (o.withDefaults cxA) := indentOpts_defaults cxA ed l o (C17_idempotent o h)
+theorem C17_apply (ed : Editor Int) (f : Nat → List Int → List (List Int)) (o : Options Int) (h : CharsetOK o) :
+    ed.applyOpts cxA f o = ed.applyOpts cxA f (o.withDefaults cxA) := applyOpts_defaults cxA ed f o (C17_idempotent o h)
+theorem C17_applyParas (ed : Editor Int) (op : Nat → List Int → List Int → List Int → R (List (List Int)))
+    (o : Options Int) (h : CharsetOK o) :
+    ed.applyParasM cxA op o = ed.applyParasM cxA op (o.withDefaults cxA) :=
+  applyParasM_defaults cxA ed op o (C17_idempotent o h)
+theorem C17_defTable (ed : Editor Int) (p : Int) (d : List (List Int × List Int)) (w : Int) (o : Options Int)
+    (h : CharsetOK o) :
+    ed.insertDefTableOpts cxA p d w o = ed.insertDefTableOpts cxA p d w (o.withDefaults cxA) :=
+  insertDefTableOpts_defaults cxA ed p d w o (C17_idempotent o h)
+theorem C17_table (ed : Editor Int) (p : Int) (d : List (List (List Int))) (w : Int) (o : Options Int)
+    (h : CharsetOK o) :
+    ed.insertTableOpts cxA p d w o = ed.insertTableOpts cxA p d w (o.withDefaults cxA) :=
+  insertTableOpts_defaults cxA ed p d w o (C17_idempotent o h)
+theorem C17_twoColumns (ed : Editor Int) (p : Int) (l r : List Int) (g w : Int) (pct : Pct) (o : Options Int)
+    (h : CharsetOK o) :
+    ed.insertTwoColumnsOpts cxA p l r g w pct o = ed.insertTwoColumnsOpts cxA p l r g w pct (o.withDefaults cxA) :=
+  insertTwoColumnsOpts_defaults cxA ed p l r g w pct o (C17_idempotent o h)
+
+/-- XOpts leaves the Options stored on the returned Editor as they were on the receiver -/
+theorem C17_opts_wrap (ed r : Editor Int) (w : Int) (o : Options Int) (h : ed.wrapOpts cxA w o = .ok r) :
+    r.opts = ed.opts := wrapOpts_opts cxA ed r w o h
+theorem C17_opts_justify (ed r : Editor Int) (w : Int) (o : Options Int) (h : ed.justifyOpts cxA w o = .ok r) :
+    r.opts = ed.opts := justifyOpts_opts cxA ed r w o h
+theorem C17_opts_align (ed r : Editor Int) (a w : Int) (o : Options Int) (h : ed.alignOpts cxA a w o = .ok r) :
+    r.opts = ed.opts := alignOpts_opts cxA ed r a w o h
+theorem C17_opts_collapse (ed r : Editor Int) (o : Options Int) (h : ed.collapseSpaceOpts cxA o = .ok r) :
+    r.opts = ed.opts := collapseSpaceOpts_opts cxA ed r o h
+theorem C17_opts_indent (ed r : Editor Int) (l : Int) (o : Options Int) (h : ed.indentOpts cxA l o = .ok r) :
+    r.opts = ed.opts := indentOpts_opts cxA ed r l o h
+theorem C17_opts_defTable (ed r : Editor Int) (p : Int) (d : List (List Int × List Int)) (w : Int)
+    (o : Options Int) (h : ed.insertDefTableOpts cxA p d w o = .ok r) : r.opts = ed.opts :=
+  insertDefTableOpts_opts cxA ed r p d w o h
+theorem C17_opts_table (ed r : Editor Int) (p : Int) (d : List (List (List Int))) (w : Int) (o : Options Int)
+    (h : ed.insertTableOpts cxA p d w o = .ok r) : r.opts = ed.opts := insertTableOpts_opts cxA ed r p d w o h
+theorem C17_opts_twoColumns (ed r : Editor Int) (p : Int) (l rt : List Int) (g w : Int) (pct : Pct)
+    (o : Options Int) (h : ed.insertTwoColumnsOpts cxA p l rt g w pct o = .ok r) : r.opts = ed.opts :=
+  insertTwoColumnsOpts_opts cxA ed r p l rt g w pct o h
+
+/-! structural facts regenerated from the typed source: every X is `return ed.XOpts(<params>, ed.Options)`
+(so X args = XOpts args ed.Options, i.e. XOpts args o = WithOptions(o).X args in text), and every XOpts
+defaults its options before the first use (ApplyParagraphsOpts hands them to applyGParagraphsOpts, which does) -/
+theorem C17_delegation : Gen.delegation = [("Align", true), ("Apply", true), ("ApplyParagraphs", true),
+    ("CollapseSpace", true), ("Indent", true), ("InsertDefinitionsTable", true), ("InsertTable", true),
+    ("InsertTwoColumns", true), ("Justify", true), ("Wrap", true)] := by decide
+
+theorem C17_defaults_first : Gen.defaultsFirst = [("AlignOpts", true), ("ApplyOpts", true),
+    ("ApplyParagraphsOpts", false), ("CollapseSpaceOpts", true), ("IndentOpts", true),
+    ("InsertDefinitionsTableOpts", true), ("InsertTableOpts", true), ("InsertTwoColumnsOpts", true),
+    ("JustifyOpts", true), ("WrapOpts", true)] := by decide
+
+/-! non-vacuity and the known finding D10 as a machine-checked counterexample -/
+example : CharsetOK ({ charset := [0x23] } : Options Int) := by unfold CharsetOK; decide +kernel
+/-- D10: a Prepend character in the set: not three clusters, not idempotent -/
+theorem C17_counterexample_D10 :
+    ¬ CharsetOK ({ charset := [0x61, 0x600] } : Options Int) ∧
+    (({ charset := [0x61, 0x600] } : Options Int).withDefaults cxA).withDefaults cxA ≠
+      ({ charset := [0x61, 0x600] } : Options Int).withDefaults cxA := by
+  unfold CharsetOK; decide +kernel
+
+end RosedVerif.Props
